@@ -25,13 +25,13 @@ func Violf(oracle, format string, a ...any) *Violation {
 
 // Stats is what a worker measured.  Everything in it is counted, never assumed.
 type Stats struct {
-	Counters  map[string]int64
-	Hashes    map[uint64]struct{} // distinct non-trivial executions (event-log hashes)
-	AllHash   Hash                // hash of all case hashes in order: the worker's determinism fingerprint
-	Samples   []json.RawMessage
-	SimSteps  int64
-	SimTimeS  float64
-	Runs      int64 // interpreter executions (a case usually runs many)
+	Counters map[string]int64
+	Hashes   map[uint64]struct{} // distinct non-trivial executions (event-log hashes)
+	AllHash  Hash                // hash of all case hashes in order: the worker's determinism fingerprint
+	Samples  []json.RawMessage
+	SimSteps int64
+	SimTimeS float64
+	Runs     int64 // interpreter executions (a case usually runs many)
 }
 
 func NewStats() *Stats {
